@@ -355,7 +355,11 @@ pub fn make_config(args: &[String]) -> Result<dh::Config, String> {
         v.push(a.into());
     }
     let r = std::panic::catch_unwind(std::panic::AssertUnwindSafe(|| {
-        let env = dh::DeltaEnv::default();
+        // a working directory (it need not exist): without one delta cannot make paths absolute and
+        // writes no file links at all
+        let mut env = dh::DeltaEnv::default();
+        env.current_dir = Some(std::path::PathBuf::from("/sim/work"));
+        env.hostname = Some("simhost".to_string());
         let assets = dh::load_highlighting_assets();
         let (_call, opt) = dh::Opt::from_args_and_git_config(v, &env, assets);
         dh::Config::from(opt.expect("Opt"))
